@@ -94,6 +94,9 @@ type Condition struct {
 type Model struct {
 	Types []TypeDef   `json:"types"`
 	Conds []Condition `json:"conds,omitempty"`
+	// SparseMeta: submit the model the way hand-written API clients do, without a
+	// metadata entry for relations that have no direct type restrictions.
+	SparseMeta bool `json:"sparse_meta,omitempty"`
 }
 
 // Tuple is a relationship tuple, optionally conditioned.
